@@ -485,6 +485,7 @@ Proof. intros [K _] H W F. split; [auto|now apply (fresh_p2 a)]. Qed.
 Lemma replay_load_dump e cl s : replay_idx (nd (load_dump e cl s)) <= replay_idx (nd s).
 Proof.
   unfold load_dump. destruct (stored (sr (nd s))) as [[sn|]|]; try lia.
+  destruct (cl && _); [cbn; lia|].
   destruct (_ <? _); [lia|].
   match goal with |- replay_idx (nd (if dyn (cf e) then update_cluster ?l ?s4 else _)) <= _ =>
     assert (E : replay_idx (nd s4) <= replay_idx (nd s)) end.
@@ -502,7 +503,7 @@ Lemma load_dump_fkeeps e cl s : fkeeps (nd s) (nd (load_dump e cl s)).
 Proof.
   intros W [F1 F2]. split; [now apply load_dump_keeps|]. split.
   - pose proof (replay_load_dump e cl s). lia.
-  - destruct (applied_load_dump e cl s) as [->|(sn & Hs & _ & ->)]; [exact F2|].
+  - destruct (applied_load_dump e cl s) as [->|(sn & Hs & _ & -> & _)]; [exact F2|].
     destruct W as (_ & _ & (S1 & _)). destruct (S1 _ Hs) as [Hi _]. lia.
 Qed.
 
@@ -542,9 +543,12 @@ Proof.
     pose proof (fr_set_transmission p2) as G2. specialize (G2 ltac:(reflexivity) p s).
     destruct (set_transmission p s) as [s2 dn]. cbn [fst] in *.
     assert (F' : fresh (nd s2)) by (apply (fresh_p2 (nd s)); auto; split; assumption).
-    destruct (dn && _).
+    destruct (dn && _); [|destruct dn].
     + apply (fresh_p2 (nd (load_dump e true s2))).
       * rewrite (fr_ae_commit p2) by reflexivity. now rewrite nd_send_next_idx.
+      * apply load_dump_fkeeps; auto.
+    + apply (fresh_p2 (nd (load_dump e true s2))).
+      * apply (fr_ae_commit p2); reflexivity.
       * apply load_dump_fkeeps; auto.
     + apply (fresh_p2 (nd s2)); [apply (fr_ae_commit p2); reflexivity|exact F'].
 Qed.
